@@ -2,9 +2,9 @@ package sim
 
 import (
 	"fmt"
-	"os"
 	"log"
 	mrand "math/rand"
+	"os"
 	"reflect"
 	"sort"
 	"strings"
